@@ -6,6 +6,7 @@ import (
 	"context"
 	"errors"
 	"fmt"
+	"io"
 	"strings"
 
 	"github.com/ovh/kmip-go"
@@ -114,6 +115,7 @@ func (w *srvWorld) runScript(name string, ops []Op) {
 		return
 	}
 	closed := false
+	var partial []byte
 	for oi, op := range ops {
 		switch op.K {
 		case "W":
@@ -144,6 +146,36 @@ func (w *srvWorld) runScript(name string, ops []Op) {
 		case "2": // two messages in one write
 			b := append(reqBytes(op.IDs[0]), reqBytes(op.IDs[1])...)
 			_, _ = c.Write(b)
+		case "WB": // a request whose identifier is padded to about 5 KiB (the response echoes it: above 4 KiB)
+			_, _ = c.Write(reqBytes(op.IDs[0] + strings.Repeat("-", 5000)))
+		case "R8": // read only the 8-byte header of the response for now
+			partial = make([]byte, 8)
+			if _, err := io.ReadFull(c, partial); err != nil {
+				mc.Failf("missing-response: %s op %d: no response header: %v", name, oi, err)
+				return
+			}
+		case "RB": // read the rest of the response whose header was read by R8 and check that it is this connection's own
+			if len(partial) != 8 {
+				mc.Failf("missing-response: %s op %d: no header read before", name, oi)
+				return
+			}
+			ln := int(partial[4])<<24 | int(partial[5])<<16 | int(partial[6])<<8 | int(partial[7])
+			rest := make([]byte, (ln+7)/8*8)
+			if _, err := io.ReadFull(c, rest); err != nil {
+				mc.Failf("missing-response: %s op %d: response body: %v", name, oi, err)
+				return
+			}
+			var resp kmip.ResponseMessage
+			want := op.IDs[0] + strings.Repeat("-", 5000)
+			if err := ttlv.UnmarshalTTLV(append(append([]byte{}, partial...), rest...), &resp); err != nil || len(resp.BatchItem) != 1 {
+				mc.Failf("undecodable-response: %s op %d: %v", name, oi, err)
+				return
+			}
+			if pl, ok := resp.BatchItem[0].ResponsePayload.(*payloads.ActivateResponsePayload); !ok || pl.UniqueIdentifier != want || string(resp.BatchItem[0].UniqueBatchItemID) != want {
+				mc.Failf("wrong-payload: %s op %d: the response read in two parts is not the answer to this connection's request", name, oi)
+				return
+			}
+			partial = nil
 		case "Q": // a decodable request that the server must refuse as a whole or item by item: exactly one response, no success
 			msg := kmip.NewRequestMessage(kmip.V1_4, &payloads.ActivateRequestPayload{UniqueIdentifier: "ok-odd"})
 			switch op.IDs[0] {
@@ -346,6 +378,7 @@ func init() {
 	odd := func(k string) Op { return Op{K: "Q", IDs: []string{k}} }
 	srv("srv-refused-requests-a", "decodable requests the server must refuse (negative / minimal / larger / zero batch count, unsupported and absent version), each answered once, then a good request", SrvCfg{Conns: [][]Op{{odd("count-negative"), odd("count-min"), odd("count-more"), odd("count-zero"), odd("version-unsupported"), odd("version-zero"), W("ok1"), R("ok1"), OpClose}}})
 	srv("srv-refused-requests-b", "decodable requests the server must refuse (Undo option, unrouted operation, critical extension, negative maximum response size), then a good request", SrvCfg{Conns: [][]Op{{odd("undo"), odd("unrouted"), odd("critical-ext"), odd("max-response-size-negative"), W("ok1"), R("ok1"), OpClose}}})
+	srv("srv-2conn-big-slow-reader", "two connections with responses above 4 KiB through a 64-byte pipe: A reads the header of its response, then (at any time) the rest; B is served in between", SrvCfg{PipeCap: 64, Conns: [][]Op{{{K: "WB", IDs: []string{"okA"}}, {K: "R8"}, {K: "RB", IDs: []string{"okA"}}, OpClose}, {{K: "WB", IDs: []string{"okB"}}, {K: "R8"}, {K: "RB", IDs: []string{"okB"}}, OpClose}}})
 	srv("srv-two-seq", "two sequential requests on one connection", SrvCfg{Conns: [][]Op{{W("ok1"), R("ok1"), W("terr2"), R("terr2"), OpClose}}})
 	srv("srv-pipelined", "two requests in one write, then read both", SrvCfg{Conns: [][]Op{{{K: "2", IDs: []string{"ok1", "perr2"}}, R("ok1", "perr2"), OpClose}}})
 	srv("srv-3pipelined-close", "three requests written back to back, then close without reading anything (requests still queued in the connection when it ends)", SrvCfg{Conns: [][]Op{{W("ok1"), W("ok2"), W("ok3"), OpClose}}})
